@@ -79,6 +79,8 @@ pub struct StepResult {
 	pub accepted_len: usize,
 	/// sink calls made so far
 	pub sink_calls: u64,
+	/// the caller-failure fault fired during this call
+	pub poison_fired: bool,
 }
 
 pub struct WriterRun {
@@ -93,8 +95,9 @@ pub struct WriterRun {
 }
 
 /// Drive the real writer through `spec` against `sink`. `observe` is called after every API call
-/// that returned (that point is a possible crash point).
-pub fn run_writer(spec: &FileSpec, sink: &SimSink, mut observe: impl FnMut(&StepResult, &[Val])) -> WriterRun {
+/// that returned (that point is a possible crash point); returning `false` abandons the history
+/// (the writer is leaked, not dropped).
+pub fn run_writer(spec: &FileSpec, sink: &SimSink, mut observe: impl FnMut(&StepResult, &[Val]) -> bool) -> WriterRun {
 	let env = Env::build(&spec.schema);
 	let mut run = WriterRun {
 		steps: vec![],
@@ -113,6 +116,7 @@ pub fn run_writer(spec: &FileSpec, sink: &SimSink, mut observe: impl FnMut(&Step
 				panicked: None,
 				accepted_len: 0,
 				sink_calls: 0,
+				poison_fired: false,
 			});
 			run.build_failed = true;
 			return run;
@@ -128,6 +132,7 @@ pub fn run_writer(spec: &FileSpec, sink: &SimSink, mut observe: impl FnMut(&Step
 			.sync_marker(spec.sync)
 			.build_with_user_metadata(sink.clone(), meta)
 	});
+	let step_poison = std::cell::Cell::new(false);
 	let mut push_step = |run: &mut WriterRun, op: usize, res: Result<(), String>, panicked: Option<String>| {
 		let st = StepResult {
 			op,
@@ -135,14 +140,19 @@ pub fn run_writer(spec: &FileSpec, sink: &SimSink, mut observe: impl FnMut(&Step
 			panicked,
 			accepted_len: sink.accepted_len(),
 			sink_calls: sink.calls(),
+			poison_fired: step_poison.replace(false),
 		};
-		observe(&st, &run.model);
+		let go_on = observe(&st, &run.model);
 		run.steps.push(st);
 		run.model_len_after.push(run.model.len());
+		go_on
 	};
 	let mut writer = match built {
 		Ok(Ok(w)) => {
-			push_step(&mut run, usize::MAX, Ok(()), None);
+			if !push_step(&mut run, usize::MAX, Ok(()), None) {
+				std::mem::forget(w);
+				return run;
+			}
 			w
 		}
 		Ok(Err(e)) => {
@@ -165,6 +175,7 @@ pub fn run_writer(spec: &FileSpec, sink: &SimSink, mut observe: impl FnMut(&Step
 				let ctx = PresCtx::new(&env, *pres, *poison);
 				let r = catch(|| writer.serialize(Presented::new(val, &spec.schema, &ctx)));
 				if ctx.poison_fired.get() {
+					step_poison.set(true);
 					run.poison_fired += 1;
 					run.poison_depths.push(ctx.poison_depth.get());
 				}
@@ -223,8 +234,8 @@ pub fn run_writer(spec: &FileSpec, sink: &SimSink, mut observe: impl FnMut(&Step
 		};
 		run.model.extend(added);
 		let was_panic = panicked.is_some();
-		push_step(&mut run, i, res, panicked);
-		if was_panic {
+		let go_on = push_step(&mut run, i, res, panicked);
+		if was_panic || !go_on {
 			writer_dead = true;
 			break;
 		}
@@ -245,7 +256,7 @@ pub fn run_writer(spec: &FileSpec, sink: &SimSink, mut observe: impl FnMut(&Step
 			Ok(()) => push_step(&mut run, end_idx, Ok(()), None),
 			Err(p) => push_step(&mut run, end_idx, Err("panic".into()), Some(p)),
 		},
-	}
+	};
 	run
 }
 
@@ -293,6 +304,8 @@ pub struct ReadRun {
 	pub items: Vec<Item>,
 	pub panicked: Option<String>,
 	pub call_budget_exhausted: bool,
+	/// the driver stopped after four consecutive errors (a caller that gives up)
+	pub gave_up_after_errors: bool,
 	pub meta: Option<Vec<(String, Vec<u8>)>>,
 	pub source: Option<SourceStats>,
 	pub calls: u64,
@@ -361,7 +374,12 @@ fn drive<'de, R>(
 	};
 	run.meta = Some(meta.into_iter().map(|(k, v)| (k, v.into_vec())).collect());
 	let mut consecutive_none = 0;
+	let mut consecutive_err = 0;
 	loop {
+		if consecutive_err >= 4 {
+			run.gave_up_after_errors = true;
+			break;
+		}
 		if run.calls as usize >= call_budget {
 			run.call_budget_exhausted = true;
 			break;
@@ -378,10 +396,12 @@ fn drive<'de, R>(
 			}
 			Ok(Ok(Some(v))) => {
 				consecutive_none = 0;
+				consecutive_err = 0;
 				run.items.push(Item::Val(v));
 			}
 			Ok(Ok(None)) => {
 				consecutive_none += 1;
+				consecutive_err = 0;
 				run.items.push(Item::None);
 				if consecutive_none >= 3 {
 					break;
@@ -389,6 +409,7 @@ fn drive<'de, R>(
 			}
 			Ok(Err(e)) => {
 				consecutive_none = 0;
+				consecutive_err += 1;
 				run.items.push(Item::Err {
 					msg: e.to_string(),
 					io: e.io_error().is_some(),
@@ -580,7 +601,7 @@ pub fn gen_filespec(rng: &mut Rng, p: &SpecProfile) -> FileSpec {
 			let poison = if p.poison && rng.chance(1, 3) {
 				Some(Poison {
 					at_call: rng.usize(1 + sizes.last().copied().unwrap_or(1).min(24)),
-					kind: *rng.pick(&[PoisonKind::Err, PoisonKind::WrongType, PoisonKind::MissingField, PoisonKind::DupField]),
+					kind: *rng.pick(&[PoisonKind::Err, PoisonKind::WrongType, PoisonKind::MissingField, PoisonKind::DupField, PoisonKind::AbortMidSeq]),
 				})
 			} else {
 				None
@@ -763,7 +784,7 @@ pub fn gen_c11_container(rng: &mut Rng) -> c11::Scn {
 	};
 	let spec = gen_filespec(rng, &profile);
 	let sink = SimSink::all();
-	let _ = run_writer(&spec, &sink, |_, _| {});
+	let _ = run_writer(&spec, &sink, |_, _| true);
 	let mut bytes = sink.accepted();
 	let mut valid = true;
 	let mut gen_kind = format!("container:{}", spec.codec.name());
